@@ -160,7 +160,7 @@ double gen_value(rng_t *r, int val) {
 }
 static int cmp_intt(const void *a, const void *b) { int_t x = *(const int_t *)a, y = *(const int_t *)b; return (x > y) - (x < y); }
 void gmat_gen(rng_t *r, int m, int n, int pat, int val, int nonsing, int cplx, gmat_t *g) {
-    static const char *pn[] = { "diag", "band", "arrow", "block", "random", "dense", "tridiag" };
+    static const char *pn[] = { "diag", "band", "arrow", "block", "random", "dense", "tridiag", "arrowtail" };
     static const char *vn[] = { "smallint", "dyadic", "generic", "scaled", "diagdom" };
     if (pat == PAT_ANY) pat = rng_int(r, 0, PAT_NUM - 1);
     if (val == VAL_ANY) val = rng_int(r, 0, VAL_NUM - 1);
@@ -174,6 +174,10 @@ void gmat_gen(rng_t *r, int m, int n, int pat, int val, int nonsing, int cplx, g
     case PAT_BAND: bw = rng_int(r, 1, 3); for (int j = 0; j < n; j++) for (int i = j - bw; i <= j + bw; i++) if (i >= 0 && i < m && (i == j || rng_chance(r, 0.7))) MK(i, j) = 1; break;
     case PAT_ARROW: for (int i = 0; i < mn; i++) MK(i, i) = 1;
         { int k = rng_chance(r, 0.5) ? 0 : mn - 1; if (mn > 0) { for (int i = 0; i < m; i++) if (rng_chance(r, 0.8)) MK(i, k < n ? k : 0) = 1; for (int j = 0; j < n; j++) if (rng_chance(r, 0.8)) MK(k < m ? k : 0, j) = 1; } } break;
+    case PAT_ARROWTAIL: { int n2 = mn >= 6 ? rng_int(r, 2, 5) : 0, n1 = mn - n2;
+        for (int i = 0; i < mn; i++) MK(i, i) = 1;
+        for (int i = 0; i < n1; i++) { MK(i, 0) = 1; MK(0, i) = 1; }
+        for (int j = n1; j < mn; j++) for (int i = j - 1; i <= j + 1; i++) if (i >= n1 && i < mn) MK(i, j) = 1; } break;
     case PAT_BLOCK: bs = rng_int(r, 2, 4); for (int j = 0; j < n; j++) for (int i = 0; i < m; i++) if (i / bs == j / bs && rng_chance(r, 0.85)) MK(i, j) = 1;
         for (int k = 0; k < mn / 2; k++) MK(rng_int(r, 0, m - 1), rng_int(r, 0, n - 1)) = 1; break;
     case PAT_DENSE: for (int j = 0; j < n; j++) for (int i = 0; i < m; i++) if (rng_chance(r, 0.9)) MK(i, j) = 1; break;
